@@ -59,6 +59,15 @@ func (m *Memory) Tag(_ context.Context, desc ocispec.Descriptor, reference strin
 	m.lock.Lock()
 	defer m.lock.Unlock()
 
+	if old, ok := m.index[reference]; ok && old.Digest != desc.Digest {
+		// the reference moves to other content: it no longer tags the old one
+		if oldTagSet, ok := m.tags[old.Digest]; ok {
+			oldTagSet.Delete(reference)
+			if len(oldTagSet) == 0 {
+				delete(m.tags, old.Digest)
+			}
+		}
+	}
 	m.index[reference] = desc
 	tagSet, ok := m.tags[desc.Digest]
 	if !ok {
